@@ -28,6 +28,8 @@ for nm0, s in SEPS:
             replay="c10_layout")
 for which, rn in ((0, "number"), (1, "ident"), (2, "string")):
     for n in (1, 2, 3):
+        if which == 2 and n == 3:
+            continue   # scan_string over 3 bytes: out of memory at 14 GB (310 s) in the thorough tier, not registered
         nm = "shift_%s_n%d" % (rn, n)
         add(nm, "10.a'", "translation!(%s, %d, %d, %d, %d);" % (nm, n, n + 1, which, n + 4),
             tier="quick" if (n <= 2 and which != 2) or n == 1 else "thorough", mem_gb=14 if which == 2 else 8,
